@@ -438,3 +438,225 @@ def consume_under_contention(c, label=None):
         {"kind": "record-not-consumed-from-kernel-map"},
         {"left": st["left"][:5], "remove_errors": st["remove_errors"], "errors": st["errs"][:3], "rounds": rounds})
     ev["wall_s"] = tm.s()
+
+
+# ------------------------------------------------------------------------------------------------ start-up (attach order)
+BPF_PROG_QUERY = 16
+BPF_CGROUP_INET4_CONNECT = 10
+
+
+def _cgroup_progs(path, attach_type=BPF_CGROUP_INET4_CONNECT):
+    """number of programs attached to the cgroup directory for the attach type (raw bpf(BPF_PROG_QUERY))"""
+    import ctypes
+    import struct
+    libc = ctypes.CDLL(None, use_errno=True)
+    fd = os.open(path, os.O_RDONLY | os.O_DIRECTORY)
+    try:
+        ids = (ctypes.c_uint32 * 64)()
+        attr = ctypes.create_string_buffer(struct.pack("IIIIQI", fd, attach_type, 0, 0, ctypes.addressof(ids), 64) + b"\0" * 100)
+        if libc.syscall(321, BPF_PROG_QUERY, attr, len(attr)) < 0:
+            raise util.ToolError("bpf(BPF_PROG_QUERY) on %s failed: errno %d" % (path, ctypes.get_errno()))
+        return struct.unpack_from("I", attr.raw, 24)[0]
+    finally:
+        os.close(fd)
+
+
+def _merge_strace(lines):
+    """strace -f lines in completion order, '<unfinished ...>' / '<... resumed>' pairs joined"""
+    import re
+    pend, out = {}, []
+    for ln in lines:
+        m = re.match(r"^(\d+)\s+(.*)$", ln.rstrip("\n"))
+        if not m:
+            continue
+        pid, rest = m.group(1), m.group(2)
+        if rest.endswith("<unfinished ...>"):
+            pend[pid] = rest[:-len("<unfinished ...>")]
+            continue
+        r = re.match(r"^<\.\.\. \w+ resumed>(.*)$", rest)
+        if r:
+            rest = pend.pop(pid, "") + r.group(1)
+        out.append((pid, rest))
+    return out
+
+
+def attach_rows(lines, obj_name="ebpf_cgroup.o"):
+    """system-call log -> rows of spec/trace/AttachTrace (nothing but the log is used)
+    publish attach: begins with the first of open(kprobe PMU type) / perf_event_open / open(tracefs kprobe_events); it
+                    succeeded when ioctl(PERF_EVENT_IOC_SET_BPF) or bpf(BPF_LINK_CREATE, attach_type=BPF_PERF_EVENT) did
+    divert attach:  bpf(BPF_LINK_CREATE | BPF_PROG_ATTACH) with attach_type=BPF_CGROUP_INET4_CONNECT and its result
+    detach:         a descriptor that holds an attachment is closed (the links of one object go together), or the process ends
+    attempt:        the object file is opened for loading"""
+    import re
+    rows, info = [], {"publish_attempts": 0, "divert_attempts": 0, "kprobe_prog_loads": 0, "cgroup_prog_loads": 0}
+    pending = None          # a publish attach under way: {"ok": bool}
+    held = set()            # descriptors whose close detaches something
+
+    def flush():
+        nonlocal pending
+        if pending is not None:
+            rows.append({"e": "attach", "hook": "publish", "ok": pending["ok"]})
+            pending = None
+
+    def ret(rest):
+        m = re.search(r"\)\s+=\s+(-?\d+)", rest)
+        return int(m.group(1)) if m else -1
+    for pid, rest in _merge_strace(lines):
+        if rest.startswith("openat(") and ('/%s"' % obj_name) in rest and ret(rest) >= 0:
+            flush()
+            rows.append({"e": "attempt"})
+        elif (rest.startswith("openat(") and ("/sys/bus/event_source/devices/kprobe/type" in rest or "kprobe_events" in rest)) \
+                or rest.startswith("perf_event_open("):
+            if pending is None:
+                pending = {"ok": False}
+                info["publish_attempts"] += 1
+            if rest.startswith("perf_event_open(") and ret(rest) >= 0:
+                pending.setdefault("fds", set()).add(ret(rest))
+        elif rest.startswith("ioctl(") and "PERF_EVENT_IOC_SET_BPF" in rest:
+            if pending is None:
+                pending = {"ok": False}
+                info["publish_attempts"] += 1
+            if ret(rest) == 0:
+                pending["ok"] = True
+                m = re.match(r"ioctl\((\d+),", rest)
+                held.add(int(m.group(1)))
+                flush()
+        elif rest.startswith("bpf(BPF_PROG_LOAD") and "prog_type=BPF_PROG_TYPE_KPROBE" in rest and "insn_cnt=2," not in rest:
+            info["kprobe_prog_loads"] += 1
+        elif rest.startswith("bpf(BPF_PROG_LOAD") and "prog_type=BPF_PROG_TYPE_CGROUP_SOCK_ADDR" in rest:
+            info["cgroup_prog_loads"] += 1
+        elif rest.startswith("bpf(BPF_LINK_CREATE") and "attach_type=BPF_PERF_EVENT" in rest:
+            if "target_fd=-1" in rest:
+                continue            # aya's feature probe for perf links
+            if pending is None:
+                pending = {"ok": False}
+                info["publish_attempts"] += 1
+            if ret(rest) >= 0:
+                pending["ok"] = True
+                held.add(ret(rest))
+                held.update(pending.get("fds", ()))
+                flush()
+        elif (rest.startswith("bpf(BPF_LINK_CREATE") or rest.startswith("bpf(BPF_PROG_ATTACH")) and "BPF_CGROUP_INET4_CONNECT" in rest:
+            flush()
+            info["divert_attempts"] += 1
+            r = ret(rest)
+            rows.append({"e": "attach", "hook": "divert", "ok": r >= 0})
+            if r >= 0 and rest.startswith("bpf(BPF_LINK_CREATE"):
+                held.add(r)
+            elif r >= 0:
+                held.add(-1)        # no link: stays until BPF_PROG_DETACH
+        elif rest.startswith("bpf(BPF_PROG_DETACH") and "BPF_CGROUP_INET4_CONNECT" in rest and ret(rest) == 0:
+            flush()
+            rows.append({"e": "detach"})
+            held.clear()
+        elif rest.startswith("close("):
+            m = re.match(r"close\((\d+)\)", rest)
+            if m and int(m.group(1)) in held and ret(rest) == 0:
+                flush()
+                rows.append({"e": "detach"})
+                held = {-1} if -1 in held else set()
+    flush()
+    if held - {-1}:
+        rows.append({"e": "detach"})       # the process ended: its links are gone
+    info["left_attached_without_link"] = -1 in held
+    return rows, info
+
+
+def _attach_run(obj, bindir, name):
+    """one driver run in a private mount namespace whose only cgroup2 directory is a private, empty cgroup"""
+    p = util.sh("findmnt -t cgroup2 -n -o TARGET | head -n 1", timeout=30, check=False)
+    cg2 = (p.stdout or "").strip()
+    if not cg2 or not os.path.isdir(cg2):
+        raise util.ToolError("no cgroup2 mount: the start-up order cannot be observed")
+    if not shutil.which("strace"):
+        raise util.ToolError("strace not found")
+    d, exe = rig.prepare(name, bindir)
+    cgdir = os.path.join(d, "cg")
+    os.makedirs(cgdir)
+    cfgp = os.path.join(d, "proxy-agent.json")
+    cfg = util.read_json(cfgp)
+    cfg["cgroupRoot"] = cgdir                      # the configured fallback names the private cgroup too
+    util.write_json(cfgp, cfg)
+    shutil.copy(obj, os.path.join(d, "ebpf_cgroup.o"))      # where Redirector::load_bpf_object looks (next to the executable)
+    sp, out, slog = os.path.join(d, "script.json"), os.path.join(d, "trace.ndjson"), os.path.join(d, "strace.log")
+    with open(sp, "w") as f:
+        json.dump({"mode": "attach", "obj": os.path.join(d, "ebpf_cgroup.o"), "cgroup": cgdir, "local_port": LPORT,
+                   "direct_attempts": 2, "loggers": True}, f)
+    private = os.path.join(cg2, "verif_attach_%d_%d" % (os.getpid(), random.randrange(1 << 30)))
+    os.mkdir(private)
+    try:
+        # private mount namespace: the private cgroup is bound into the run directory, every other cgroup mount is detached,
+        # so whatever path the tree under test resolves, the only cgroup it can reach is the private, empty one
+        inner = ("mount --bind %s %s && umount -R -l /sys/fs/cgroup && exec strace -f -qq -v -s 128 -o %s "
+                 "-e trace=bpf,perf_event_open,openat,ioctl,close %s" % (private, cgdir, slog, exe))
+        pr = util.sh(["unshare", "-m", "sh", "-c", inner], cwd=d,
+                     env={"VERIF_CMD": "realmaps", "VERIF_SCRIPT": sp, "VERIF_OUT": out, "RUST_BACKTRACE": "0"}, timeout=120, check=False)
+        left = _cgroup_progs(private)
+    finally:
+        try:
+            os.rmdir(private)           # an empty cgroup: removing it also releases anything still attached to it
+        except OSError as ex:
+            raise util.ToolError("the private cgroup %s could not be removed: %s" % (private, ex))
+    rows = util.read_ndjson(out) if os.path.exists(out) else []
+    err = next((r for r in rows if r.get("e") == "load_error"), None)
+    if err:
+        raise util.ToolError("start-up run: %s" % err["what"])
+    if pr.returncode != 0 or not rows or rows[-1].get("e") != "done":
+        raise util.ToolError("realmaps driver (attach mode) failed rc=%s\n%s" % (pr.returncode, (pr.stdout or "")[-2000:]))
+    if left:
+        raise util.ToolError("%d program(s) were still attached to the private cgroup after the driver exited" % left)
+    with open(slog, errors="replace") as f:
+        lines = f.readlines()
+    trows, info = attach_rows(lines)
+    info["driver"] = {r["e"]: {k: v for k, v in r.items() if k not in ("e", "seq")} for r in rows if r["e"] in ("start_end", "direct_attempt")}
+    if not os.environ.get("VERIF_KEEP"):
+        shutil.rmtree(d, ignore_errors=True)
+    return trows, info
+
+
+def attach_order(c, label=None):
+    """C06 at start-up: the diverting hook is never in force without the publishing hook.  The REAL Redirector::start
+    (retry loop, a fresh object per attempt) and Redirector::attach_bpf_prog run on the tree's eBPF object under strace;
+    rows derived from the system-call log are judged by spec/trace/AttachTrace.  Violations are recorded on c under
+    {"kind": "diverting-hook-attached-before-publishing-hook"}; evidence in c.extra["realmaps_attach"]."""
+    label = label or c.prop.lower()
+    tm = util.Timer()
+    c.tlc("Attach", "Attach.cfg", workers=2, timeout=120,
+          required_actions=["Attempt", "AttachPublish", "AttachDivert", "DetachAll", "Close", "ClientConnect"])
+    sw = c.tlc("Attach", "Attach_swapped.cfg", workers=2, timeout=120, coverage=False, expect_ok=False)
+    if sw.invariant_violated != "NeverDivertUnpublished":
+        raise tlcmod.TlcError("mc/Attach_swapped.cfg (divert attached first) was expected to violate NeverDivertUnpublished "
+                              "(anti-vacuity of the clause); got %s" % (sw.invariant_violated or sw.error_lines[:2] or "no violation"))
+    obj = build_object()
+    bindir = build.cargo_build("agent")
+    trows, info = _attach_run(obj, bindir, "realmaps_att_%s_%d" % (label, os.getpid()))
+    nattempts = sum(1 for r in trows if r["e"] == "attempt")
+    nattach = sum(1 for r in trows if r["e"] == "attach")
+    ev = {"attempts_seen_in_the_syscall_log": nattempts, "attach_rows": [r for r in trows if r["e"] != "attempt"][:8], "syscalls": info}
+    c.extra["realmaps_attach"] = ev
+    if nattempts < 2 or nattach == 0 or not (info["kprobe_prog_loads"] or info["cgroup_prog_loads"]):
+        raise util.ToolError("start-up run: the system-call log shows %d object loads and %d attach attempts -- nothing to judge "
+                             "(strace decoding or the start-up path changed): %s" % (nattempts, nattach, info))
+    ok, why, res = validate_trace(c, "AttachTrace", "AttachTrace.cfg", trows, "realmaps_att_%s" % label, count=1, timeout=120)
+    c.count(n=nattach)
+    if ok:
+        c.sample({"kind": "start-up rows derived from strace (first attempt)", "rows": trows[:4]})
+        ev["wall_s"] = tm.s()
+        return
+    if "P_C06_NeverDivertUnpublished" not in why:
+        raise util.ToolError("AttachTrace could not follow the rows derived from the system-call log: %s" % why)
+    # believed when it shows again in a second run
+    trows2, info2 = _attach_run(obj, bindir, "realmaps_att_%s_rp_%d" % (label, os.getpid()))
+    ok2, why2, _ = validate_trace(c, "AttachTrace", "AttachTrace.cfg", trows2, "realmaps_att_%s_replay" % label, count=0, timeout=120)
+    if ok2 or "P_C06_NeverDivertUnpublished" not in why2:
+        c.extra["realmaps_attach_unreproduced"] = trows[:12]
+        raise util.ToolError("a start-up with the diverting hook in force alone did not show again; not believed")
+    k = next(i for i, r in enumerate(trows) if r["e"] == "attach" and r["hook"] == "divert" and r["ok"])
+    c.violation(
+        "at start-up the diverting hook (cgroup/connect4) is attached while the publishing hook (kprobe tcp_connect) is not: "
+        "rows %s of the system-call log of Redirector::start / attach_bpf_prog (%d attempts) -- between the two attaches, and until "
+        "the object is dropped when the kprobe attach fails, connects to listed addresses are diverted to the proxy with no record"
+        % (json.dumps(trows[max(0, k - 1):k + 3]), nattempts),
+        {"kind": "diverting-hook-attached-before-publishing-hook"},
+        {"rows": trows, "syscalls": info, "driver": info.get("driver")})
+    ev["wall_s"] = tm.s()
